@@ -14,13 +14,13 @@ import (
 )
 
 func init() {
-	register(&Rule{ID: "PAR-1", Props: []string{"C08"}, Floor: 4,
+	register(&Rule{ID: "PAR-1", Props: []string{"C08"}, Floor: 3,
 		Doc: "token-kind agreement: kinds tested by canAtom = kinds opening a case of atom; those plus the kinds consumed elsewhere = all declared kinds", Run: par1})
 	register(&Rule{ID: "PAR-2", Props: []string{"C03", "C08"}, Floor: 8,
 		Doc: "consumption typestate: atom consumes on every normal return; back() only on the way to a panic; a panic about a consumed token is preceded by exactly one back()", Run: par2})
-	register(&Rule{ID: "PAR-3", Props: []string{"C08", "C10", "C11", "C01"}, Floor: 5,
+	register(&Rule{ID: "PAR-3", Props: []string{"C08", "C10", "C11", "C01"}, Floor: 4,
 		Doc: "declared names only: every container given to a matcher comes from a comma-ok lookup (true edge; false edge panics) in the right index keyed by the token text; groups and matchers get the command's own index", Run: par3})
-	register(&Rule{ID: "PAR-4", Props: []string{"C08", "C09"}, Floor: 5,
+	register(&Rule{ID: "PAR-4", Props: []string{"C08", "C09"}, Floor: 4,
 		Doc: "no option after `--`: the flag is set only on the `--` path and every option-matcher construction is under its false edge (true edge panics)", Run: par4})
 	register(&Rule{ID: "PAR-5", Props: []string{"C01", "C03", "C08"}, Floor: 5,
 		Doc: "parse wrapper: deferred recover turns string panics into positioned ParseErrors and re-raises others; every panic of the package carries a string; trailing tokens are an error at that token; success marks the end state terminal and prepares the automaton", Run: par5})
@@ -96,6 +96,59 @@ func openingFounds(p *parserFns) []*ssa.Call {
 	return out
 }
 
+// caseKinds returns the kinds K such that block b lies in a case body of atom opened by found(K):
+// the opening founds whose true edge reaches b, provided b is unreachable once those edges are cut.
+func caseKinds(p *parserFns, b *ssa.BasicBlock) (kinds []string, ok bool) {
+	fn := p.atom
+	if b.Parent() != fn {
+		return nil, false
+	}
+	blockedE := map[ir.Edge]bool{}
+	set := map[string]bool{}
+	for _, f := range openingFounds(p) {
+		for _, e := range ir.EdgesWhere(fn, f, true) {
+			if e.To == b || ir.Reach(e.To, nil, nil)[b] {
+				blockedE[ir.Edge{From: e.From, To: e.To}] = true
+				if k, isK := kindArg(f); isK {
+					set[k] = true
+				} else {
+					set["?"] = true
+				}
+			}
+		}
+	}
+	if len(blockedE) == 0 {
+		return nil, false
+	}
+	if b == fn.Blocks[0] || ir.Reach(fn.Blocks[0], nil, blockedE)[b] {
+		return nil, false
+	}
+	for k := range set {
+		kinds = append(kinds, k)
+	}
+	sort.Strings(kinds)
+	return kinds, true
+}
+
+func inCaseOf(p *parserFns, b *ssa.BasicBlock, allowed ...string) bool {
+	kinds, ok := caseKinds(p, b)
+	if !ok || len(kinds) == 0 {
+		return false
+	}
+	for _, k := range kinds {
+		found := false
+		for _, a := range allowed {
+			if a == k {
+				found = true
+			}
+		}
+		if !found {
+			return false
+		}
+	}
+	return true
+}
+
 func par1(c *Ctx) {
 	p := c.parserFns()
 	if p == nil {
@@ -166,14 +219,7 @@ func par1(c *Ctx) {
 			if k, _ := kindArg(call); k != "OptValue" {
 				continue
 			}
-			good := false
-			if fn == p.atom {
-				for _, of := range openingFounds(p) {
-					if ok2, _ := kindArg(of); (ok2 == "ShortOpt" || ok2 == "LongOpt") && ir.HoldsAt(of, true, call.Block()) {
-						good = true
-					}
-				}
-			}
+			good := fn == p.atom && inCaseOf(p, call.Block(), "ShortOpt", "LongOpt")
 			c.Check(good, fmt.Sprintf("%s:OptValue@%s", Q(fn), relLine(c, fn, call.Pos())), call.Pos(), "`=<text>` is accepted only right after a short or long option", "`=<text>` can be consumed after something that is not a single option (e.g. `ARG=<x>`, `[-f]=<x>` would compile)")
 		}
 	}
@@ -339,26 +385,41 @@ func par2(c *Ctx) {
 			}
 			msg := panicText(pn)
 			key := fmt.Sprintf("%s:panic[%s]@%s", Q(f), msg, relLine(c, f, pn.Pos()))
-			// consumed-and-offending: a found-true edge dominates and no later consumption
-			var lastFound *ssa.Call
-			for _, fc := range callsTo(f, p.found) {
-				if ir.HoldsAt(fc, true, pn.Block()) {
-					lastFound = fc
-				}
-			}
+			// consumed-and-offending: the panic lies in a case body (a token was consumed by the case test)
+			// and nothing else was consumed since
+			_, inCase := caseKinds(p, pn.Block())
 			laterConsumption := false
-			if lastFound != nil {
+			if inCase {
 				for _, call := range ir.Calls(f) {
-					if !p.isConsumingCall(call) || call == ssa.CallInstruction(lastFound) {
+					if !p.isConsumingCall(call) {
 						continue
 					}
-					if cv, ok := call.(*ssa.Call); ok && ir.Static(cv) == p.found && ir.HoldsAt(cv, true, pn.Block()) {
+					isOpening := false
+					for _, of := range openingFounds(p) {
+						if call == ssa.CallInstruction(of) {
+							isOpening = true
+						}
+					}
+					if isOpening {
 						continue
 					}
-					if call.Block().Dominates(pn.Block()) && lastFound.Block().Dominates(call.Block()) && call.Block() != lastFound.Block() {
+					if _, callInCase := caseKinds(p, call.Block()); !callInCase {
+						continue
+					}
+					if cv, isC := call.(*ssa.Call); isC && ir.Static(cv) == p.found {
+						// an optional trailing token consumed in the same case (e.g. `=<..>`) that cannot precede this panic
+						if !(call.Block() == pn.Block() && ir.IndexIn(call) < ir.IndexIn(pn)) && !ir.Reach(call.Block(), nil, nil)[pn.Block()] {
+							continue
+						}
+					}
+					if call.Block() == pn.Block() && ir.IndexIn(call) < ir.IndexIn(pn) || call.Block() != pn.Block() && ir.Reach(call.Block(), nil, nil)[pn.Block()] && call.Block().Dominates(pn.Block()) {
 						laterConsumption = true
 					}
 				}
+			}
+			var lastFound interface{}
+			if inCase {
+				lastFound = true
 			}
 			nBack := 0
 			for _, b := range backs {
@@ -457,13 +518,19 @@ func par3(c *Ctx) {
 		return ""
 	}
 	foundKindAt := func(b *ssa.BasicBlock) string {
-		for _, f := range openingFounds(p) {
-			if ir.HoldsAt(f, true, b) {
-				k, _ := kindArg(f)
-				return k
+		kinds, ok := caseKinds(p, b)
+		if !ok || len(kinds) == 0 {
+			return "?"
+		}
+		return strings.Join(kinds, "|")
+	}
+	optionKinds := func(kind string) bool {
+		for _, k := range strings.Split(kind, "|") {
+			if k != "ShortOpt" && k != "LongOpt" {
+				return false
 			}
 		}
-		return "?"
+		return true
 	}
 	ctor := func(name string) *ssa.Function { return c.fnOpt("internal/matcher", name) }
 	for _, call := range ir.Calls(fn) {
@@ -485,7 +552,7 @@ func par3(c *Ctx) {
 			if why == "" && !isField(cv.Call.Args[1], "optionsIdx") {
 				why = "the matcher does not get the command's own option index"
 			}
-			if kind != "ShortOpt" && kind != "LongOpt" {
+			if !optionKinds(kind) {
 				why = "an option matcher is built for a " + kind + " token"
 			}
 			c.Check(why == "", Q(fn)+":NewOpt["+kind+"]", cv.Pos(), "the option is the declared one named by the token; the matcher resolves names through the command's index", why)
@@ -614,10 +681,8 @@ func par4(c *Ctx) {
 			continue
 		}
 		kind := "?"
-		for _, of := range openingFounds(p) {
-			if ir.HoldsAt(of, true, cv.Block()) {
-				kind, _ = kindArg(of)
-			}
+		if ks, ok := caseKinds(p, cv.Block()); ok && len(ks) > 0 {
+			kind = strings.Join(ks, "|")
 		}
 		good := false
 		ir.Instrs(fn, func(in ssa.Instruction) {
@@ -969,7 +1034,7 @@ func par6(c *Ctx) {
 		why := "`[x]` does not add a shortcut from the start to the end of x"
 		if f := founds["OpenSq"]; f != nil {
 			for _, e := range edges {
-				if !ir.HoldsAt(f, true, e.call.Block()) {
+				if !inCaseOf(p, e.call.Block(), "OpenSq") {
 					continue
 				}
 				fx, okF := e.from.(*ssa.Extract)
@@ -1032,7 +1097,7 @@ func par6(c *Ctx) {
 		} else {
 			var sc *ssa.Call
 			for _, cv := range callsTo(fn, p.seq) {
-				if ir.HoldsAt(f, true, cv.Block()) {
+				if inCaseOf(p, cv.Block(), g.open) {
 					sc = cv
 				}
 			}
